@@ -187,7 +187,7 @@ Definition enc_ind (i : nat) (hz : option Z) (all : list tinfo) (e : riexpr) : l
       [FEq I (TAdd (map (fun t => TIte (FOr [FLe (E_ t) (TC (due_of t)); FNot (sched_f t)]) (TC 0)
                                        (TMul (TSub (E_ t) (TC (due_of t))) (TC (ti_prio t)))) (tasks_of all ts)))]
   | IEarliness ts =>
-      [FEq I (TAdd (map (fun t => let d := TSub (TC (due_of t)) (E_ t) in TIte (FGe d (TC 0)) d (TC 0)) (tasks_of all ts)))]
+      [FEq I (TAdd (map (fun t => let d := TSub (TC (due_of t)) (E_ t) in TIte (FAnd [FGe d (TC 0); sched_f t]) d (TC 0)) (tasks_of all ts)))]
   | INbTardy ts =>
       [FEq I (TAdd (map (fun t => TIte (FGt (E_ t) (TC (due_of t))) (TC 1) (TC 0)) (tasks_of all ts)))]
   | IMaxLateness ts => get_maximum I (map (fun t => TSub (E_ t) (TC (due_of t))) (tasks_of all ts))
